@@ -1,5 +1,5 @@
 """Write the T3 baseline (AST fingerprints of every anchor file) for the tree the checks
-were validated on.  Run by hand after the unchanged tree (plus committed fix: commits) is clean."""
+were validated on.  Run with /venv/bin/python (ast.dump differs between Python versions) after the unchanged tree (plus committed fix: commits) is clean."""
 import glob
 import importlib
 import json
